@@ -33,6 +33,11 @@ def start_models():
     _starts["pheno"] = pheno
     # a multiple-dose oral-like data set: second dose inside the observation window
     _starts["pheno_oral"] = set_first_order_absorption(pheno)
+    from pharmpy.modeling import remove_covariate_effect
+
+    nocov = remove_covariate_effect(remove_covariate_effect(remove_covariate_effect(pheno, "CL", "WGT"), "VC", "WGT"), "VC", "APGR")
+    _starts["pheno_nocov"] = nocov
+    _starts["pheno_nocov_oral"] = set_first_order_absorption(nocov)
     lin = load_example_model("pheno_linear")
     dfl = lin.dataset[lin.dataset["ID"] <= 3].reset_index(drop=True)
     _starts["pheno_linear"] = lin.replace(dataset=dfl)
@@ -120,6 +125,42 @@ def ops(kind="structural"):
 
 
 REFUSALS = (ValueError, NotImplementedError)
+CALL_TIMEOUT = 30  # seconds of wall time for one real API call (sympy may not terminate on some ODE systems)
+
+
+class CallTimeout(BaseException):
+    pass
+
+
+class time_limit:
+    """wall-clock limit for a block inside a worker (main thread): raises CallTimeout.  Nestable: an enclosing limit keeps
+    running while an inner one is active."""
+
+    def __init__(self, seconds):
+        self.seconds = seconds
+
+    def __enter__(self):
+        import signal
+        import time
+
+        def handler(signum, frame):
+            raise CallTimeout()
+
+        self.t0 = time.time()
+        self.prev = signal.getitimer(signal.ITIMER_REAL)[0]
+        self.old = signal.signal(signal.SIGALRM, handler)
+        limit = self.seconds if self.prev <= 0 else min(self.seconds, self.prev)
+        signal.setitimer(signal.ITIMER_REAL, max(limit, 0.001))
+
+    def __exit__(self, *a):
+        import signal
+        import time
+
+        signal.setitimer(signal.ITIMER_REAL, 0)
+        signal.signal(signal.SIGALRM, self.old)
+        if self.prev > 0:
+            signal.setitimer(signal.ITIMER_REAL, max(self.prev - (time.time() - self.t0), 0.001))
+        return False
 
 
 def apply(model, label):
@@ -134,7 +175,10 @@ def apply(model, label):
     try:
         with warnings.catch_warnings():
             warnings.simplefilter("ignore")
-            m2 = f(model)
+            with time_limit(CALL_TIMEOUT):
+                m2 = f(model)
+    except CallTimeout:
+        return None, "timeout"
     except REFUSALS as e:
         return None, f"refused:{type(e).__name__}"
     except Exception as e:
